@@ -12,10 +12,21 @@ from . import codec
 
 
 _CURRENT = None
+_CASES = None
 
 
-def _worker(chunk):
-    return _CURRENT._run_chunk(chunk)
+def _worker(span):
+    # cases are inherited through fork (they may hold unpicklable sentinels); only indices travel
+    lo, hi = span
+    out = _CURRENT._run_chunk(_CASES[lo:hi])
+    return [(lo + _index_of(_CASES, lo, hi, c), d) for c, d in out]
+
+
+def _index_of(cases, lo, hi, c):
+    for k in range(lo, hi):
+        if cases[k] is c:
+            return k - lo
+    return 0
 
 
 class Stage:
@@ -62,12 +73,12 @@ class Stage:
         if self.parallel and (n > 2000 or self.weight):
             jobs = min(16, os.cpu_count() or 4)
             size = max(1, (n + jobs * 4 - 1) // (jobs * 4))
-            chunks = [cases[i:i + size] for i in range(0, n, size)]
-            global _CURRENT
-            _CURRENT = self
+            spans = [(i, min(i + size, n)) for i in range(0, n, size)]
+            global _CURRENT, _CASES
+            _CURRENT, _CASES = self, cases
             with mp.get_context('fork').Pool(jobs) as pool:
-                for part in pool.imap_unordered(_worker, chunks):
-                    fails.extend(part)
+                for part in pool.imap_unordered(_worker, spans):
+                    fails.extend((cases[i], d) for i, d in part)
         else:
             fails = self._run_chunk(cases)
         known_ids = {k['id']: k for k in known if self.name in k.get('stages', [])}
